@@ -17,12 +17,12 @@
 From IL Require Import Model.Value Model.Mat Model.Session Proofs.Mat Proofs.Session.
 Open Scope N_scope.
 
-(* (1) session steps never alter persistent facts, persistent rules or session-less answers *)
+(* (1) session steps never alter persistent facts, persistent rules (of any knowledge graph; `kgs` is
+   the whole map KG -> facts, rules, schemas) or session-less answers *)
 Theorem C10_persistent_frame :
   forall h : list hop, no_session_schema h = true ->
     pers_answers (answers hinit h) = answers hinit (filter is_pers h) /\
-    pfacts (hrun hinit h) = pfacts (hrun hinit (filter is_pers h)) /\
-    pcat (hrun hinit h) = pcat (hrun hinit (filter is_pers h)).
+    kgs (hrun hinit h) = kgs (hrun hinit (filter is_pers h)).
 Proof. exact persistent_frame. Qed.
 
 (* (2) for every session s: its answers (and the persistent ones) are those of the schedule in which
@@ -30,8 +30,7 @@ Proof. exact persistent_frame. Qed.
 Theorem C10_session_view :
   forall (s : sid) (h : list hop), no_session_schema h = true ->
     filter (fun e => is_pers (fst e) || owned_by s (fst e)) (answers hinit h) = answers hinit (view_of s h) /\
-    pfacts (hrun hinit h) = pfacts (hrun hinit (view_of s h)) /\
-    pcat (hrun hinit h) = pcat (hrun hinit (view_of s h)) /\
+    kgs (hrun hinit h) = kgs (hrun hinit (view_of s h)) /\
     sess_of (hrun hinit h) s = sess_of (hrun hinit (view_of s h)) s.
 Proof. exact session_view. Qed.
 
@@ -42,37 +41,76 @@ Theorem C10_own_state :
     sess_of (hrun hinit h) s = sess_of (hrun hinit (filter (owned_by s) h)) s.
 Proof. intros s h. apply own_state. reflexivity. Qed.
 
-(* (3) what a session query returns, in every reachable or unreachable state *)
+(* (3) what a session query returns, in every reachable or unreachable state: the knowledge graph
+   the session is bound to, united with the session's own facts, under persistent ++ own rules *)
 Theorem C10_query_is_union :
   forall (st : hst) (s : sid) (r : name),
     snd (hstep st (SQuery s r)) =
-    Some (let c := merge_cat (pcat st) (srules (sess_of st s)) in
-          val (length c) c (union_db (pfacts st) (sfacts (sess_of st s))) r).
+    Some (let g := kg_of st (skg (sess_of st s)) in
+          let c := merge_cat (pcat g) (srules (sess_of st s)) in
+          val (length c) c (union_db (pfacts g) (sfacts (sess_of st s))) r).
 Proof. reflexivity. Qed.
+
+(* (4) `.session clear` and the KG switch `.kg use k` leave NOTHING of the session's ephemeral state
+   behind: whatever the session does next (the list `own` of its own later operations, e.g. a new fact
+   that makes it dirty again, then queries) goes exactly as for a fresh session bound to that
+   knowledge graph, whatever rules or facts it held before; persistent state is untouched. *)
+Theorem C10_clear_resets :
+  forall (st : hst) (s : sid),
+    sess_of (fst (hstep st (SClear s))) s = mkSess [] [] (skg (sess_of st s)) /\
+    kgs (fst (hstep st (SClear s))) = kgs st.
+Proof. intros st s. cbn [hstep fst]. rewrite sess_of_set_eq. split; reflexivity. Qed.
+
+Theorem C10_kg_switch_resets :
+  forall (st : hst) (s : sid) (k : kgid),
+    sess_of (fst (hstep st (SKgUse s k))) s = mkSess [] [] k /\
+    kgs (fst (hstep st (SKgUse s k))) = kgs st.
+Proof. intros st s k. cbn [hstep fst]. rewrite sess_of_set_eq. split; reflexivity. Qed.
+
+Theorem C10_after_reset_like_fresh :
+  forall (st : hst) (s : sid) (o : hop) (own : list hop),
+    (o = SClear s \/ exists k, o = SKgUse s k) ->
+    forallb (fun x => is_pers x || owned_by s x) own = true ->
+    let fresh := set_sess st s (mkSess [] [] (skg (sess_of (fst (hstep st o)) s))) in
+    answers (fst (hstep st o)) own = answers fresh own.
+Proof. exact after_reset_like_fresh. Qed.
 
 (* the finding: a transient schema declared by session 1 makes a later persistent insert fail *)
 Theorem C10_refuted_session_schema :
   exists h, c10_known h = 1 /\
-    get (pfacts (hrun hinit h)) 7 <> get (pfacts (hrun hinit (filter is_pers h))) 7.
+    get (pfacts (kg_of (hrun hinit h) 0)) 7 <> get (pfacts (kg_of (hrun hinit (filter is_pers h)) 0)) 7.
 Proof. exact refuted_schema. Qed.
 
 (* Non-vacuity: two sessions with different ephemeral facts and rules over a shared persistent
    relation and rule; each sees its own union, the persistent view sees neither. *)
 Definition ex_sched : list hop :=
-  [PInsert 0 [t2 1 2; t2 2 3]; SFact 1 0 (t2 5 6); PRegister 10 (cl_copy 10 0) true;
-   SFact 2 0 (t2 1 2); SRule 2 (cl_copy 11 10) true; PInsert 0 [t2 7 8];
-   SQuery 1 10; SQuery 2 11; SCount 2 0; PQuery 10; SQuery 1 11].
+  [PInsert 0 0 [t2 1 2; t2 2 3]; SFact 1 0 (t2 5 6); PRegister 0 10 (cl_copy 10 0) true;
+   SFact 2 0 (t2 1 2); SRule 2 (cl_copy 11 10) true; PInsert 0 0 [t2 7 8];
+   SQuery 1 10; SQuery 2 11; SCount 2 0; PQuery 0 10; SQuery 1 11].
 Example C10_nonvacuous :
   no_session_schema ex_sched = true /\
   map snd (own_answers 1 (answers hinit ex_sched)) =
     [None; Some [t2 1 2; t2 2 3; t2 7 8; t2 5 6]; Some []] /\
   map snd (own_answers 2 (answers hinit ex_sched)) =
     [None; None; Some [t2 1 2; t2 2 3; t2 7 8]; Some [[VI64 3]]] /\
-  snd (hstep (hrun hinit ex_sched) (PQuery 10)) = Some [t2 1 2; t2 2 3; t2 7 8].
+  snd (hstep (hrun hinit ex_sched) (PQuery 0 10)) = Some [t2 1 2; t2 2 3; t2 7 8].
 Proof. vm_compute. repeat split; reflexivity. Qed.
+
+(* the regression scenario: rule, clear (or switch to KG 1), dirty again, query — the old rule is gone *)
+Definition ex_clear : list hop :=
+  [PInsert 0 0 [t2 1 2]; PInsert 1 0 [t2 8 9]; SRule 1 (cl_copy 11 0) true; SFact 1 0 (t2 3 4); SQuery 1 11;
+   SClear 1; SFact 1 0 (t2 5 6); SQuery 1 11; SQuery 1 0;
+   SRule 1 (cl_copy 11 0) true; SKgUse 1 1; SFact 1 0 (t2 6 6); SQuery 1 11; SQuery 1 0].
+Example C10_nonvacuous_clear :
+  map snd (filter (fun e => match snd e with Some _ => true | None => false end) (answers hinit ex_clear)) =
+    [Some [t2 1 2; t2 3 4]; Some []; Some [t2 1 2; t2 5 6]; Some []; Some [t2 8 9; t2 6 6]].
+Proof. vm_compute. reflexivity. Qed.
 
 Print Assumptions C10_persistent_frame.
 Print Assumptions C10_session_view.
 Print Assumptions C10_own_state.
 Print Assumptions C10_query_is_union.
+Print Assumptions C10_clear_resets.
+Print Assumptions C10_kg_switch_resets.
+Print Assumptions C10_after_reset_like_fresh.
 Print Assumptions C10_refuted_session_schema.
